@@ -165,6 +165,10 @@ impl BatchStats {
         self.gen.discards += o.gen.discards;
         self.gen.api_invalid += o.gen.api_invalid;
         self.gen.api_nonfinite += o.gen.api_nonfinite;
+        self.gen.api_panicked += o.gen.api_panicked;
+        if self.gen.api_first_panic.is_none() {
+            self.gen.api_first_panic = o.gen.api_first_panic.clone();
+        }
         self.sigs_faulted.extend(o.sigs_faulted);
         self.sigs_all.extend(o.sigs_all);
         self.digest = self.digest.wrapping_add(o.digest);
@@ -587,7 +591,9 @@ fn write_evidence(
             "generator": {
                 "discarded_candidates": st.gen.discards,
                 "api_chain_results_invalid_discarded": st.gen.api_invalid,
-                "api_chain_results_nonfinite_discarded": st.gen.api_nonfinite
+                "api_chain_results_nonfinite_discarded": st.gen.api_nonfinite,
+                "api_chain_panics_in_crate_maths_discarded": st.gen.api_panicked,
+                "api_chain_panic_example": st.gen.api_first_panic
             },
             "known_finding_hits": st.known_hits.iter().map(|(k, v)| (known.findings[*k].what.clone(), *v)).collect::<BTreeMap<_, _>>(),
             "components": {
